@@ -132,8 +132,8 @@ def scenarios(ctx):
     out = []
     # S1: queues and windows (one side has a message held back while the other side refills its window)
     out.append(Std('queues', profile='pub', naddr=2, init=BOTH, closing=False, pub_qos=(1, 2) if not q else (1,),
-                   budgets=dict(tick=1),
-                   addr_budgets=[dict(pub=2, ack=1 if q else 2, tick=1), dict(pub=2 if not q else 1, ack=1, tick=1)]))
+                   budgets=dict(tick=1, setid=1),
+                   addr_budgets=[dict(pub=2, ack=1 if q else 2, tick=1, setid=1), dict(pub=2, ack=1, tick=1)]))
     # S2: session state: one side loses its connection and reconnects (persistent or clean) while the other is mid-exchange
     A = dict(pub=1, ack=1, lose=1, rebuild=1, connect=1, connack=1, tick=1)
     B = dict(pub=1, sub=1 if not q else 0, ack=1, tick=1)
